@@ -31,6 +31,17 @@ CLAIMS["C04"] = ("Lean theorems: the three patterns regenerated from matcher.go 
 CLAIMS["C05"] = ("Lean theorems about processSet for every config, filesystem state, group and EVERY fault position: at most one encoder start (at_most_once); argv = binary, configured args with the -i slot holding the temp name, output last, only for valid non-skipped groups (argv_shape); never for an existing output unless overwrite (no_clobber); every final path was there before or is the output, the temp name is gone (temp_gone); every other path keeps its content/mtime (sources_intact); a listed path is the output of a successful join and carries the first chapter's mtime (listed_is_output); errors list nothing; Validate's slot is an empty argument directly after -i (validate_slot). Tie: verif hook + recording fault-injecting filesystem; op logs, argv, final state and mutated cfg.Args compared with the model, incl. exhaustive single-fault enumeration of a fixed scenario.",
                  "Trusted: Lean kernel; harness + hook; OS filesystem, html/template modelled; one fault per run.")
 
+CLAIMS["C06"] = ("Lean theorems for all headers / payloads / surrounding bytes: a leaf element is read as exactly size×repeat payload bytes + alignment padding and the reader continues with what follows (read_leaf_step); a container's children are read from exactly the bytes it declares and the following bytes are parsed as siblings (siblings_not_children); a stream ending before a container's or leaf's declared bytes, or inside a header, is an error (truncated_container_is_error, truncated_leaf_is_error, partial_header_is_error); every numeric element exposes size×repeat/width values, each the big-endian (two's complement) value of its bytes (value_count_and_bits); the width table regenerated from element.go matches the GPMF widths (width_table, widths_match_spec). Tie: regenerated tables + correspondence of the real reader on generated trees, mutated trees and the real captures.",
+                 "Trusted: Lean kernel; translator + harness; io/binary semantics modelled. Whole-tree round trip and the tree walker are covered by correspondence, not by one theorem.")
+CLAIMS["C07"] = ("Lean theorems: value i of a scaled element is raw[i]/scale[i mod n] (scale_cyclic); a pending scale is consumed by exactly the next element and cleared, elements without a pending scale stay unscaled, a SCAL stores its non-empty vector as the parent's pending scale (scale_next_only, unscaled_when_no_scale, scal_sets_pending); sensor layouts GPS5 lat,lon,alt,2D,3D / ACCL,GYRO,MAGN Z,X,Y / WRGB R,G,B (layouts, decide on regenerated tables); regrouping gives repeat-many samples with field k = value j·w+pos k, wrong multiples are errors (regroup_ok, regroup_sample, window_value, bad_count); face fields sit at the cumulative offsets of the type definition for Hero 6/8/10 and id..h + last float for Hero 7, all inside the record (face_offsets). Tie: regenerated tables + bit-exact correspondence on generated sensor streams.",
+                 "Trusted: Lean kernel; translator + harness. GPSP/GPSF handling is part of the modelled parser table and checked by correspondence.")
+CLAIMS["C08"] = ("Lean theorems for ANY sample tables the decoder accepts: samples 1..N are read exactly once in order, the first starts at media time 0, each interval starts where the previous ended (every_sample_once); ticks→ns is the exact floor of ticks·1e9/timescale for every timescale (mediaTime_exact); reading i of n gets start+i·((end−start)/n), offsets begin at start, never decrease, stay below end, deviate from the exact value by less than i ns (spread_value, spread_bounds, spread_monotone, spread_exactness); zero timescale / missing chunk offsets are errors. Tie: correspondence on byte-synthesised MP4 files with arbitrary table layouts, compared offset by offset.",
+                 "Trusted: Lean kernel; harness + synthesiser; mp4ff box parsing (echo-checked). Extent arithmetic is validated by correspondence.")
+CLAIMS["C09"] = ("Lean theorems: for ARBITRARY bytes the reader model never reaches a Go panic (reader_no_panic, via the level invariant 'a pending scale is never empty' and the table conditions tables_ok proved by decide on the regenerated tables); for ARBITRARY sample tables the walk never indexes out of range or divides by zero (tables_no_panic) and the whole decoder model never panics (decoder_no_panic). All definitions are total. The proof attempt itself exposed a crash (container keyed FACE), fixed in /repo. Tie: classification ok/err/panic/hang compared on mutated and random input with a watchdog.",
+                 "Trusted: Lean kernel; translator + harness; crash points were read from the source into the model; runtime limits (stack, allocation) and mp4ff's own robustness are outside the model.")
+CLAIMS["C16"] = ("Lean theorems: an exposing element sees every entry of its own stream (own statements win) and otherwise only entries of its ancestors below the root — its device — never a sibling stream's, another device's or another payload's (sees_own_and_ancestors, root_level_copies_nothing, container_starts_fresh, payload_isolated); restating a key replaces the earlier value and touches no other key (restated_replaces, set_other); which keys store and which elements expose metadata is the regenerated key table (tables_tie, metadata_keys, exposing_keys). Tie: every element's Metadata map dumped key-sorted and compared on generated device/stream/metadata histories.",
+                 "Trusted: Lean kernel; translator + harness; Go map aliasing modelled by alias resolution.")
+
 NA_REASON = "check under construction in this round (design in DESIGN.md); will be claimed once its model, theorems and correspondence exist"
 
 
